@@ -86,6 +86,7 @@ type Func struct {
 	Recv     *Struct
 	Pure     bool
 	Rec      bool // recursive with a decreasing first int parameter
+	NilSafe  bool // method that returns literals when its receiver is nil
 }
 
 type lib struct {
@@ -507,6 +508,16 @@ func (g *G) leaf(t *Type) (string, bool) {
 	return g.literal(t), true
 }
 
+// keyLeaf is a map key: float keys are literals, because a float variable may
+// hold NaN and NaN-keyed entries are excepted from what maps promise (C10).
+func (g *G) keyLeaf(t *Type) string {
+	if t.K == KFloat {
+		return g.literal(t)
+	}
+	k, _ := g.leaf(t)
+	return k
+}
+
 func (g *G) ref(v *Var) string {
 	if v.Pkg != "" && v.Pkg != g.pkg {
 		return g.libAlias(v.Pkg) + "." + v.Name
@@ -537,8 +548,9 @@ func (g *G) access(t *Type) (string, bool) {
 				}
 			}
 		}
-		if v.T.K == KMap && v.T.Elem.Eq(t) {
-			k, _ := g.leaf(v.T.Key)
+		if v.T.K == KMap && v.T.Elem.Eq(t) && t.K != KPtr {
+			// (a missing key of a map of struct references yields nil; plain variables hold non-nil references)
+			k := g.keyLeaf(v.T.Key)
 			opts = append(opts, g.ref(v)+"["+k+"]")
 		}
 		if t.K == KInt && !v.Const && (v.T.K == KSlice || v.T.K == KMap || v.T.K == KString) {
